@@ -303,11 +303,16 @@ type subVec struct {
 	Uo                                      bool
 }
 
-func ingestSubReq(v subVec) []step {
+// stats: the server keeps subscription statistics (subscribe.WithStats)
+func ingestSubReq(v subVec, stats bool) []step {
 	c := cache.New([]string{"dev1"})
 	c.GnmiUpdate(&pb.Notification{Timestamp: 1, Prefix: &pb.Path{Target: "dev1"}, Update: []*pb.Update{{Path: &pb.Path{Elem: pathElems("a", "b")},
 		Val: &pb.TypedValue{Value: &pb.TypedValue_IntVal{IntVal: 1}}}}})
-	srv, _ := subscribe.NewServer(c, subscribe.WithTimeout(time.Second))
+	sopts := []subscribe.Option{subscribe.WithTimeout(time.Second)}
+	if stats {
+		sopts = append(sopts, subscribe.WithStats())
+	}
+	srv, _ := subscribe.NewServer(c, sopts...)
 	c.SetClient(srv.Update)
 	var first *pb.SubscribeRequest
 	switch v.Subscribe {
@@ -551,7 +556,7 @@ func ingestRun(args []string) error {
 				case "subreq":
 					var v subVec
 					json.Unmarshal(lines[i], &v)
-					variants = [][]step{ingestSubReq(v)}
+					variants = [][]step{ingestSubReq(v, false), ingestSubReq(v, true)}
 				case "resp":
 					var v respVec
 					json.Unmarshal(lines[i], &v)
